@@ -48,6 +48,8 @@ def fprof(spec):
 
 def make_frame(c):
     fr = stg.Frame(fchans=c["F"], tchans=c["T"], df=c["df"], dt=c["dt"], fch1=c["fch1"], ascending=c["ascending"], seed=c.get("seed", 1), t_start=1000.0)
+    if c.get("ts_shift"):
+        fr.ts = fr.ts + c["ts_shift"] * c["dt"]          # the frame's own time axis, shifted as a cadence does
     pr = c.get("prior", "zero")
     if pr == "ramp":
         fr.data = np.arange(c["T"] * c["F"], dtype=float).reshape((c["T"], c["F"])) % 17
